@@ -39,7 +39,9 @@ type actRound struct {
 }
 
 type actRecorder struct {
-	rounds []*actRound
+	rounds      []*actRound
+	cancelAfter int    // cancel the sync context after this many more rounds (0: never)
+	cancel      func() // see node.syncStop
 }
 
 func (r *actRecorder) cur() *actRound {
@@ -109,6 +111,11 @@ func (s *spyStore) ContractActions(index types.ChainIndex, revisionBroadcastHeig
 		}
 	}
 	s.rec.rounds = append(s.rec.rounds, rd)
+	if s.rec.cancelAfter > 0 {
+		if s.rec.cancelAfter--; s.rec.cancelAfter == 0 && s.rec.cancel != nil {
+			s.rec.cancel()
+		}
+	}
 	return a, err
 }
 
